@@ -55,7 +55,7 @@ PROPS = {
         "jobs": match_jobs("C01", 150000, 12000000),
         "replay": replay_matcher("match", ["--props", "C01"]),
         "rule": RULE_MATCH,
-        "require": {"any": {"c01.related": 1000, "c01.unrelated": 1000, "arm.AA": 100, "arm.UA": 100, "arm.UU": 100, "arm.AU": 100, "profile.big": 10}},
+        "require": {"any": {"c01.max-length-haystack-calls": 12, "c01.related": 1000, "c01.unrelated": 1000, "arm.AA": 100, "arm.UA": 100, "arm.UU": 100, "arm.AU": 100, "profile.big": 10}},
         "assumptions": ["the public per-character maps chars::normalize / chars::to_lower_case define the projection (their own correctness is C16)",
                         "U+000B is excluded from generated text (the two representations legitimately classify it differently)"],
     },
@@ -456,7 +456,7 @@ PROPS["C13"] = {
     "require": {"any": {"c13.schedules-judged": 200, "c13.ordering[C R L U A]": 10, "c13.ordering[C L R A U]": 10, "c13.ordering[R C L A U]": 10, "c13.ordering[C L A return R U]": 10, "c13.ordering[C R L A (tick goes on, worker held) U]": 10, "c13.ordering[R C L A (tick goes on, worker held) U]": 10,
                          "c13.event-loops": 20, "c13.injector-notifies-checked": 500, "c13.same-count.variant0.running=true": 3,
                          "c13.update-config.run-held=true.running=true": 3, "c13.same-count.variant3.running=true": 3, "c13.ticks-issued-inside-the-notify-callback": 10, "c13.ticks-on-one-matcher-while-another-ran": 10, "c13.idle-runs-ending-inside-a-tick": 10,
-                         "c13.schedules-on-an-instance-with-65536+-earlier-runs": 2}},
+                         "c13.schedules-on-an-instance-with-65536+-earlier-runs": 2, "c13.event-loop-final-results-compared": 50}},
     "assumptions": ["an unbounded 'eventually' is not decidable on a finite run: the verdict is taken when no run is pending any more (final, not a timeout)"],
 }
 
